@@ -3,7 +3,8 @@ import struct
 
 from .refcodec import RExt
 
-CHARS = ['a', 'z', '0', ' ', '\n', '\x00', '\x7f', 'é', '€', '\U0001f600', '퟿', '']
+CHARS = ['a', 'z', '0', ' ', '\n', '\r', '\x00', '\x7f', '\x85', '\xe9', '\u20ac', '\U0001f600', '\ud7ff', '\ue000',
+         '\ufeff', '\ufffe', '\uffff', '\u2028', '\U0010ffff']     # incl. BOM, non-characters, line separators
 
 
 def build(spec):
@@ -88,6 +89,7 @@ def len_specs(n):
     out = [
         ('str', {'S': ['a', n]}),
         ('str-mb', {'S': ['éa', n]}),      # byte length differs from character count
+        ('str-bom', {'S': ['\ufeffa', n]}),   # starts with U+FEFF: an ordinary code point of a str
         ('bin', {'B': [0xc1, n]}),
         ('ext', {'E': [5, 0x90, n]}),
         ('array', {'A': [None, n]}),
@@ -132,7 +134,7 @@ def rand_scalar(rng, key=False):
         n = rng.choice((0, 1, 3, 15, 16, 31, 32, 33, 40, 255, 256, 300)) if rng.random() < 0.5 else rng.randrange(0, 70)
         if rng.random() < 0.6:
             return {'s': ''.join(rng.choice(CHARS) for _ in range(min(n, 80)))}
-        return {'S': [rng.choice(['a', 'é', 'ab€', '\U0001f600x']), n]}
+        return {'S': [rng.choice(['a', 'é', 'ab€', '\U0001f600x', '\ufeffb', '\x00a']), n]}
     if t == 5:
         n = rng.choice((0, 1, 2, 31, 32, 255, 256, 257)) if rng.random() < 0.5 else rng.randrange(0, 40)
         if rng.random() < 0.5:
